@@ -6,7 +6,7 @@ import (
 	"fmt"
 	"math/rand"
 	"sort"
-	"time"
+	"sync"
 
 	rr "github.com/youzan/ZanRedisDB/rockredis"
 )
@@ -167,11 +167,14 @@ type codecWitness struct {
 
 // buildUniverse encodes every tuple of the universe with the canonical
 // encoder of its kind, checking the round trip of each encoding on the way.
-func buildUniverse(s sink, policy string, tables, keys, subs []string) *codecUniverse {
+func buildUniverse(s sink, policy string, tables, keys, subs []string, thorough bool) *codecUniverse {
 	u := &codecUniverse{policy: policy, tables: tables, keys: keys, subs: subs,
 		perTable: map[[2]int]int{}, perKey: map[[4]int]int{}}
 	if policy == "compact" {
-		u.vers = []int64{0, 1695600000123456789, -1}
+		u.vers = []int64{0, 1695600000123456789}
+		if thorough {
+			u.vers = append(u.vers, -1)
+		}
 	}
 	u.scores = []float64{0, 1, -1, 1.5, negZero(), inf(1), inf(-1), 1e300, -1e300, 5e-324, 255, 256}
 	u.seqs = []int64{rr.VerifListMinSeq, rr.VerifListInitialSeq - 1, rr.VerifListInitialSeq, rr.VerifListInitialSeq + 1, rr.VerifListInitialSeq + 255, rr.VerifListInitialSeq + 256, rr.VerifListMaxSeq}
@@ -816,9 +819,9 @@ func (u *codecUniverse) decoderFuzz(s sink, r *rand.Rand, n int) {
 
 // codecNames picks the name pools for the codec universes.
 func codecNames(r *rand.Rand, thorough bool) (tables, keys, subs []string) {
-	nT, extra := 14, 6
+	nT, extra := 12, 6
 	if thorough {
-		nT, extra = 1000, 40
+		nT, extra = 24, 20
 	}
 	tn := tableNames()
 	if nT > len(tn) {
@@ -866,28 +869,33 @@ func runCodecIdentities(s sink, seed int64, thorough bool) {
 	s.Count("codec_alphabet/tables", int64(len(tables)))
 	s.Count("codec_alphabet/keys", int64(len(keys)))
 	s.Count("codec_alphabet/subkeys", int64(len(subs)))
+	var wg sync.WaitGroup
+	wg.Add(1)
+	go func() {
+		defer wg.Done()
+		runMemcmp(s, rand.New(rand.NewSource(seed*7907+13)), thorough)
+	}()
 	for _, policy := range []string{"local", "compact"} {
-		t0 := time.Now()
-		u := buildUniverse(s, policy, tables, keys, subs)
-		t1 := time.Now()
-		u.checkInjective(s)
-		t2 := time.Now()
-		u.checkContainment(s)
-		t3 := time.Now()
-		u.checkScoreRanges(s)
-		t4 := time.Now()
-		u.checkElementOrder(s)
-		t5 := time.Now()
-		s.Progress("timing build=%v inj=%v cont=%v score=%v order=%v", t1.Sub(t0), t2.Sub(t1), t3.Sub(t2), t4.Sub(t3), t5.Sub(t4))
-		nf := 300
-		if thorough {
-			nf = 3000
-		}
-		u.decoderFuzz(s, r, nf)
-		s.Eval(1)
-		s.Nontrivial("codec-universe/" + policy)
-		s.Progress("codec universe %s: %d engine keys, %d tables x %d keys x %d sub-keys", policy, len(u.recs), len(tables), len(keys), len(subs))
+		policy := policy
+		r := rand.New(rand.NewSource(seed*7907 + 17 + int64(len(policy))))
+		wg.Add(1)
+		go func() {
+			defer wg.Done()
+			u := buildUniverse(s, policy, tables, keys, subs, thorough)
+			u.checkInjective(s)
+			u.checkContainment(s)
+			u.checkScoreRanges(s)
+			u.checkElementOrder(s)
+			nf := 300
+			if thorough {
+				nf = 3000
+			}
+			u.decoderFuzz(s, r, nf)
+			s.Eval(1)
+			s.Nontrivial("codec-universe/" + policy)
+			s.Progress("codec universe %s: %d engine keys, %d tables x %d keys x %d sub-keys", policy, len(u.recs), len(tables), len(keys), len(subs))
+		}()
 	}
-	runMemcmp(s, r, thorough)
+	wg.Wait()
 	runLimits(s)
 }
